@@ -8,3 +8,15 @@ fire("C67", "exporter-extends-input-operations-in-place",
 silent("C67", "exporter-copies-operations",
        [(TQ, "    [transformed_tape], _ = convert_to_numpy_parameters(tape)\n    operations = transformed_tape.operations\n",
              "    operations = list(tape.operations)\n")])
+
+# --- R-C67-shadow
+_QI = "pennylane/io/qasm_interpreter.py"
+fire("C67", "builtin-constants-shadow-program-variables",
+     [(_QI, "        if name in self.vars:\n            res = self.vars[name]\n            if res.val is not None:\n                return res",
+            "        if name in CONSTANTS:\n            return CONSTANTS[name]\n        if name in self.vars:\n            res = self.vars[name]\n            if res.val is not None:\n                return res"),
+      (_QI, "        if name in self.aliases:\n            return self.aliases[name](self)  # evaluate the alias and de-reference\n        if name in CONSTANTS:\n            return CONSTANTS[name]\n",
+            "        if name in self.aliases:\n            return self.aliases[name](self)  # evaluate the alias and de-reference\n")],
+     "R-C67-shadow", "retrieve_variable")
+silent("C67", "lookup-chain-written-with-elif",
+       [(_QI, "        if name in self.registers:\n            return self.registers[name]\n        if name in self.wires:\n            return name\n",
+              "        if name in self.registers:\n            return self.registers[name]\n        elif name in self.wires:\n            return name\n")])
